@@ -87,6 +87,7 @@ type tCaseIn struct {
 	Keys       []tKey `json:"keys"`
 	Base       bool   `json:"base"`
 	MethodCtx  bool   `json:"methodCtx"`
+	KeyCtx     string `json:"keyCtx"`
 	Services   int    `json:"services"`
 	Ops        []tOp  `json:"ops"`
 	Published  bool   `json:"published"`
@@ -215,7 +216,7 @@ func transformReplay(args []string) {
 
 		switch c.Kind {
 		case "keys":
-			k = fmt.Sprintf("keys:%v:base=%v:mctx=%v:svc=%d", c.Keys, c.Base, c.MethodCtx, c.Services)
+			k = fmt.Sprintf("keys:%v:base=%v:mctx=%v:svc=%d:%s", c.Keys, c.Base, c.MethodCtx, c.Services, c.KeyCtx)
 		case "ops":
 			k = fmt.Sprintf("ops:%v:published=%v", c.Ops, c.Published)
 		case "opts":
@@ -336,7 +337,27 @@ func transformReplay(args []string) {
 				opts = append(opts, didtransformer.WithMethodContext([]string{typeContexts["method-context"]}))
 			}
 
-			tk := fmt.Sprintf("%v/%v", c.Base, c.MethodCtx)
+			ctxOf := func(name string) string { return typeContexts[name] }
+
+			if c.KeyCtx == "custom" {
+				custom := map[string]string{}
+				for name := range typeContexts {
+					if name != "did-v1" && name != "method-context" {
+						custom[name] = "https://custom.example/contexts/" + name
+					}
+				}
+
+				opts = append(opts, didtransformer.WithKeyContext(custom))
+				ctxOf = func(name string) string {
+					if v, ok := custom[name]; ok {
+						return v
+					}
+
+					return typeContexts[name]
+				}
+			}
+
+			tk := fmt.Sprintf("%v/%v/%s", c.Base, c.MethodCtx, c.KeyCtx)
 			if shared[tk] == nil {
 				shared[tk] = didtransformer.New(opts...)
 			}
@@ -373,7 +394,7 @@ func transformReplay(args []string) {
 				if cx == "@base" {
 					wantCtx = append(wantCtx, map[string]interface{}{"@base": tDID})
 				} else {
-					wantCtx = append(wantCtx, typeContexts[cx])
+					wantCtx = append(wantCtx, ctxOf(cx))
 				}
 			}
 
